@@ -97,10 +97,10 @@ func (w *world) rebuild() error {
 		}
 	}
 	files := map[string]string{
-		filepath.Join(w.S, "exist.txt"):       "first " + secretExist + "\nsecond line\n",
-		filepath.Join(w.S, "mod.lua"):         "return \"" + secretMod + "\"\n",
+		filepath.Join(w.S, "exist.txt"):        "first " + secretExist + "\nsecond line\n",
+		filepath.Join(w.S, "mod.lua"):          "return \"" + secretMod + "\"\n",
 		filepath.Join(w.S, "sub", "inner.txt"): "inner " + secretInner + "\n",
-		filepath.Join(w.G, "granted.txt"):     "granted " + grantToken + "\nsecond granted line\n",
+		filepath.Join(w.G, "granted.txt"):      "granted " + grantToken + "\nsecond granted line\n",
 	}
 	for _, d := range []string{"sub", "emptydir", "tmp"} {
 		if err := os.MkdirAll(filepath.Join(w.S, d), 0o755); err != nil {
